@@ -512,7 +512,10 @@ impl Filter {
             return Ok(None); // actually an error
         }
 
-        let base_offset = crate::HEX_INVERSE[hex[32] as usize];
+        let base_offset = match crate::HEX_INVERSE.get(hex[32] as usize) {
+            Some(b) => *b,
+            None => return Ok(None), // actually an error
+        };
         if base_offset == 255 {
             return Ok(None); // actually an error
         }
